@@ -5,4 +5,5 @@ import (
 	_ "verif/harness/c01"
 	_ "verif/harness/c02"
 	_ "verif/harness/c03"
+	_ "verif/harness/c06"
 )
